@@ -469,6 +469,17 @@ entry! { EResultOwnedString, "result<owned<u8>,string>", ResultRegion<OwnedRegio
         "read-item(region)" => |s, v, aux| { let i = aux.push(v); s.put(aux.index(i)) },
     ]
 }
+entry! { EResultCollapse, "result<mirror<u8>,collapse<string>>", ResultRegion<MirrorRegion<u8>, Collapse<StringRegion>>,
+    clone: yes, serde: yes, model: yes,
+    flags: { stringy: true },
+    reserve: none,
+    canon: "&Result" => |v| v,
+    forms: [
+        "Result" => |s, v, aux| s.put(v.clone()),
+        "Result<&u8,&str>" => |s, v, aux| s.put(v.as_ref().map_err(|e| e.as_str())),
+        "read-item(region)" => |s, v, aux| { let i = aux.push(v); s.put(aux.index(i)) },
+    ]
+}
 entry! { EResultPref, "pref<Result<u8,u16>>", <Result<u8, u16> as RegionPreference>::Region,
     clone: yes, serde: yes, model: yes,
     flags: {},
@@ -588,6 +599,10 @@ macro_rules! slice_entry {
 slice_entry!(ESliceMirrorU8, "slice<mirror<u8>>", SliceRegion<MirrorRegion<u8>>, clone: yes, serde: yes, model: yes,
     reserve: [(|v| v), (|v| v.as_slice()), (|v| <<SliceRegion<MirrorRegion<u8>> as Region>::ReadItem<'_> as IntoOwned>::borrow_as(v))],
     flags: { structural: true });
+slice_entry!(EPairsSliceU8, "pairs<slice<mirror<u8>>,optimized>", Pairs<SliceRegion<MirrorRegion<u8>>, IO>, clone: yes, serde: yes, model: yes, reserve: (|v| v),
+    flags: { idx_is_usize: true, dense: true });
+slice_entry!(EPairsSliceString, "pairs<slice<string>,list>", Pairs<SliceRegion<StringRegion>, IL>, clone: yes, serde: yes, model: yes, reserve: (|v| v),
+    flags: { idx_is_usize: true, dense: true, stringy: true });
 slice_entry!(ESliceMirrorUsizeOpt, "slice<mirror<usize>,optimized>", SliceRegion<MirrorRegion<usize>, IO>, clone: yes, serde: yes, model: yes, reserve: (|v| v),
     flags: {});
 slice_entry!(ESliceMirrorUsizeList, "slice<mirror<usize>,list>", SliceRegion<MirrorRegion<usize>, IL>, clone: yes, serde: yes, model: yes, reserve: (|v| v),
